@@ -135,6 +135,7 @@ class Complex:
     any_attr: bool = False
     attr_group: str | None = None
     abstract: bool = False
+    restricts: "Complex | None" = None   # complexContent restriction of that base: the particle re-declares what is kept
 
 
 @dataclass
@@ -225,6 +226,8 @@ def render_particle(p) -> str:
         return f'<xs:element ref="{p[1]}" minOccurs="0"/>'
     if isinstance(p, tuple) and p[0] == "import-subst":
         return f'<xs:element ref="{p[1]}" minOccurs="0" maxOccurs="2"/>'
+    if isinstance(p, tuple) and p[0] == "import-typed":
+        return f'<xs:element name="{p[1]}" type="{p[2]}" minOccurs="0"/>'
     if isinstance(p, AnyP):
         return f'<xs:any namespace="{p.ns}" processContents="{p.process}"{_occ(p.min, p.max)}/>'
     if isinstance(p, Group):
@@ -247,6 +250,9 @@ def render_complex(c: Complex, name_attr: str = "") -> str:
         return (f"<xs:complexType{name_attr}{extra}><xs:simpleContent><xs:extension base=\"{c.simple_content.ref()}\">{attrs}"
                 "</xs:extension></xs:simpleContent></xs:complexType>")
     body = render_particle(c.particle) if c.particle else ""
+    if c.restricts is not None:
+        return (f"<xs:complexType{name_attr}{extra}><xs:complexContent><xs:restriction base=\"t:{c.restricts.name}\">{body}{attrs}"
+                "</xs:restriction></xs:complexContent></xs:complexType>")
     if c.base is not None:
         return (f"<xs:complexType{name_attr}{extra}><xs:complexContent><xs:extension base=\"t:{c.base.name}\">{body}{attrs}"
                 "</xs:extension></xs:complexContent></xs:complexType>")
@@ -314,6 +320,7 @@ def render(s: Schema, which: str = "main") -> dict[str, str]:
         files["other.xsd"] = ('<?xml version="1.0" encoding="UTF-8"?>\n<xs:schema xmlns:xs="http://www.w3.org/2001/XMLSchema" targetNamespace="urn:other" '
                               'xmlns:o="urn:other" elementFormDefault="qualified"><xs:element name="ext" type="xs:string"/>'
                               '<xs:element name="ohead" type="xs:string"/>'
+                              '<xs:complexType name="Item"><xs:sequence><xs:element name="code" type="xs:int"/></xs:sequence></xs:complexType>'
                               '<xs:attribute name="flag" type="xs:boolean"/></xs:schema>')
     return files
 
@@ -334,6 +341,7 @@ FEATURES = [
     "union-type", "named-simple-type", "attr-required", "attr-default", "attr-fixed", "attr-group", "any-other", "any-attribute", "extension-xsi-type",
     "nillable", "mixed", "recursion", "include", "import", "simple-content", "typed-values", "nested-anonymous", "sequence-repeating", "element-default",
     "qname-value", "binary-values", "abstract-base", "attr-form-override", "element-form-override", "substitution-head-imported", "simple-content-attr-value",
+    "restriction", "nested-same-name", "same-type-name-imported",
 ]
 
 
@@ -472,6 +480,25 @@ def apply_feature(s: Schema, feat: str) -> None:
     elif feat == "simple-content-attr-value":
         sc = Complex(simple_content=SimpleT(base="string"), attrs=[Attr("value", SimpleT(base="string")), Attr("lang", SimpleT(base="string"))])
         seq.items.append(Elem("label", sc, min=0, max=2))
+    elif feat == "restriction":
+        # a type derived by restriction: it re-declares the particles it keeps (one optional particle of the base is left out)
+        base = Complex(particle=Group("sequence", [Elem("rid", SimpleT(base="int")), Elem("rname", SimpleT(base="string"), min=0), Elem("rnote", SimpleT(base="string"), min=0)]), name="WideT")
+        slim = Complex(particle=Group("sequence", [Elem("rid", SimpleT(base="int")), Elem("rname", SimpleT(base="string"), min=0)]), name="SlimT", restricts=base)
+        s.types += [base, slim]
+        seq.items.append(Elem("slim", slim, min=0, max=2))
+        seq.items.append(Elem("wide", base, min=0))
+    elif feat == "nested-same-name":
+        # an anonymous type that contains an element of its own name with another anonymous type
+        inner = Complex(particle=Group("sequence", [Elem("title", SimpleT(base="string"))]), attrs=[Attr("lvl", SimpleT(base="int"))])
+        outer = Complex(particle=Group("sequence", [Elem("head", SimpleT(base="string"), min=0), Elem("section", inner, min=0, max=2)]))
+        seq.items.append(Elem("section", outer, min=0, max=2))
+    elif feat == "same-type-name-imported":
+        # one type name in this namespace and in the imported one, both in use
+        s.import_ = s.import_ or Schema()
+        own = Complex(particle=Group("sequence", [Elem("label", SimpleT(base="string"))]), name="Item")
+        s.types.append(own)
+        seq.items.append(Elem("mine", own, min=0))
+        seq.items.append(("import-typed", "theirs", "o:Item"))
     elif feat == "binary-values":
         seq.items.append(Elem("hx", SimpleT(base="hexBinary"), min=0))
         seq.items.append(Elem("b64", SimpleT(base="base64Binary"), min=0))
@@ -620,6 +647,11 @@ class InstanceGen:
     def particle(self, p) -> list:
         if isinstance(p, tuple) and p[0] == "import-ref":
             return [I.El(p[1], kids=["ext"])] if self.pick([False, True], "import-el") else []
+        if isinstance(p, tuple) and p[0] == "import-typed":
+            if not self.pick([False, True], "import-typed"):
+                return []
+            # the local element is in this schema's namespace (when qualified), its content in the imported one
+            return [I.El(self.q(p[1]), kids=[I.El("o:code", kids=[self.pick(["5", "-1"], "val:code")])])]
         if isinstance(p, tuple) and p[0] == "import-subst":
             n = self.pick([0, 1, 2], "occ:import-subst")
             out = []
